@@ -960,3 +960,146 @@ Proof.
   - destruct SK as (q & ty & -> & Er & Hq). cbn [go_call bindc Bool.eqb negb read_sim]. exists q. repeat split; try assumption; lia.
   - destruct SK as (q & ty & -> & Hq). cbn [go_call bindc Bool.eqb negb read_sim]. eexists; eexists; reflexivity.
 Qed.
+
+(* ---------- the fuel of the models always suffices: [fuel_for bs] ----------
+   every step of the skipping functions that spends fuel also consumes a byte, or enters a nesting whose head it
+   consumed *)
+Lemma drop_len n (bs : list N) : (length (drop n bs) <= length bs)%nat.
+Proof. unfold drop. destruct (N.of_nat (length bs) <=? n)%N; cbn; [lia|]. rewrite skipn_length. lia. Qed.
+Lemma read_head2_len bs ty tg r two : read_head2 bs = Some (ty, tg, r, two) -> (S (length r) <= length bs)%nat.
+Proof.
+  unfold read_head2. destruct bs as [|b bs]; [discriminate|]. destruct (b / 16 =? 15)%N.
+  - destruct bs as [|t bs']; [discriminate|]. intros H; inversion H; subst. cbn. lia.
+  - intros H; inversion H; subst. cbn. lia.
+Qed.
+Lemma read_head_len bs ty tg r : read_head bs = Some (ty, tg, r) -> (S (length r) <= length bs)%nat.
+Proof.
+  unfold read_head. destruct (read_head2 bs) as [[[[a b] c] d]|] eqn:E; [|discriminate].
+  intros H; inversion H; subst. eapply read_head2_len; eassumption.
+Qed.
+Lemma bread_len n bs v r : bread n bs = Some (v, r) -> (length r <= length bs)%nat.
+Proof. unfold bread. destruct (n <=? length bs)%nat; [|discriminate]. intros H; inversion H; subst. rewrite skipn_length. lia. Qed.
+Lemma read_count_len bs : match read_count bs with COk _ r => (S (length r) <= length bs)%nat | CErr r => (length r <= length bs)%nat end.
+Proof.
+  unfold read_count. destruct (read_head bs) as [[[ty tg] r]|] eqn:E; [|cbn; lia].
+  pose proof (read_head_len _ _ _ _ E) as L.
+  destruct (negb (tg =? 0) || (ty =? tSE))%N; [lia|]. destruct (ty =? tZERO)%N; [lia|].
+  destruct (ty =? tBYTE)%N; [destruct r; cbn in *; lia|].
+  destruct (ty =? tSHORT)%N; [destruct (bread 2 r) as [[v r']|] eqn:B; [apply bread_len in B|cbn]; lia|].
+  destruct (ty =? tINT)%N; [destruct (bread 4 r) as [[v r']|] eqn:B; [apply bread_len in B|cbn]; lia|]. lia.
+Qed.
+
+Lemma skip_p_len : forall f,
+  (forall d ty bs s r, skip_field_p f d ty bs = (s, r) -> (length r <= length bs)%nat) /\
+  (forall d n bs s r, skip_n_p f d n bs = (s, r) -> (length r <= length bs)%nat) /\
+  (forall d bs s r, skip_to_end_p f d bs = (s, r) -> (length r <= length bs)%nat).
+Proof.
+  induction f as [|f (IHf & IHn & IHe)].
+  - repeat split; intros; cbn in *; inversion H; subst; lia.
+  - repeat split.
+    + intros d ty bs s r H. cbn [skip_field_p] in H.
+      repeat match type of H with (if ?c then _ else _) = _ => destruct c end;
+        try (inversion H; subst; first [apply drop_len | cbn; lia]).
+      * destruct bs as [|l r0]; inversion H; subst; cbn; [lia|]. pose proof (drop_len l r0). lia.
+      * destruct (bread 4 bs) as [[l r0]|] eqn:B; inversion H; subst; cbn; [|lia].
+        apply bread_len in B. pose proof (drop_len l r0). lia.
+      * pose proof (read_count_len bs) as RC. destruct (read_count bs) as [n r0|r0]; [|inversion H; subst; lia].
+        apply IHn in H. lia.
+      * pose proof (read_count_len bs) as RC. destruct (read_count bs) as [n r0|r0]; [|inversion H; subst; lia].
+        apply IHn in H. lia.
+      * destruct (read_head bs) as [[[t tg] r0]|] eqn:E; [|inversion H; subst; cbn; lia].
+        apply read_head_len in E. destruct (negb (t =? tBYTE)%N); [inversion H; subst; lia|].
+        pose proof (read_count_len r0) as RC. destruct (read_count r0) as [n r1|r1]; inversion H; subst; [|lia].
+        destruct (0 <? n)%Z; [pose proof (drop_len (Z.to_N n) r1)|]; lia.
+      * apply IHe in H. exact H.
+    + intros d n bs s r H. cbn [skip_n_p] in H. destruct (n <=? 0)%Z; [inversion H; subst; lia|].
+      destruct (read_head bs) as [[[ty tg] r0]|] eqn:E; [|inversion H; subst; cbn; lia].
+      apply read_head_len in E. destruct (skip_field_p f d ty r0) as [s0 r1] eqn:E0. apply IHf in E0.
+      destruct s0; try (apply IHn in H; lia). inversion H; subst; lia.
+    + intros d bs s r H. cbn [skip_to_end_p] in H.
+      destruct (read_head bs) as [[[ty tg] r0]|] eqn:E; [|inversion H; subst; cbn; lia].
+      apply read_head_len in E. destruct (skip_field_p f d ty r0) as [s0 r1] eqn:E0. apply IHf in E0.
+      destruct s0; try (inversion H; subst; lia).
+      destruct (ty =? tSE)%N; [inversion H; subst; lia|]. apply IHe in H. lia.
+Qed.
+
+Lemma skip_p_fuel : forall f,
+  (forall d ty bs, (2 * length bs + 3 <= f)%nat -> fst (skip_field_p f d ty bs) <> SFuel) /\
+  (forall d n bs, (2 * length bs + 2 <= f)%nat -> fst (skip_n_p f d n bs) <> SFuel) /\
+  (forall d bs, (2 * length bs + 2 <= f)%nat -> fst (skip_to_end_p f d bs) <> SFuel).
+Proof.
+  induction f as [|f (IHf & IHn & IHe)].
+  - repeat split; intros; lia.
+  - repeat split.
+    + intros d ty bs Hf. cbn [skip_field_p].
+      repeat match goal with |- context [if ?c then _ else _] => destruct c end; cbn [fst]; try congruence.
+      * destruct bs; cbn; congruence.
+      * destruct (bread 4 bs) as [[l r0]|]; cbn; congruence.
+      * pose proof (read_count_len bs) as RC. destruct (read_count bs) as [n r0|r0]; [|cbn; congruence]. apply IHn. lia.
+      * pose proof (read_count_len bs) as RC. destruct (read_count bs) as [n r0|r0]; [|cbn; congruence]. apply IHn. lia.
+      * destruct (read_head bs) as [[[t tg] r0]|]; [|cbn; congruence]. destruct (negb (t =? tBYTE)%N); [cbn; congruence|].
+        destruct (read_count r0); cbn; congruence.
+      * apply IHe. lia.
+    + intros d n bs Hf. cbn [skip_n_p]. destruct (n <=? 0)%Z; [cbn; congruence|].
+      destruct (read_head bs) as [[[ty tg] r0]|] eqn:E; [|cbn; congruence].
+      apply read_head_len in E. pose proof (IHf d ty r0 ltac:(lia)) as F0.
+      destruct (skip_field_p f d ty r0) as [s0 r1] eqn:E0. cbn [fst] in F0.
+      pose proof (proj1 (skip_p_len f) _ _ _ _ _ E0) as L1.
+      destruct s0; try congruence; apply IHn; lia.
+    + intros d bs Hf. cbn [skip_to_end_p].
+      destruct (read_head bs) as [[[ty tg] r0]|] eqn:E; [|cbn; congruence].
+      apply read_head_len in E. pose proof (IHf d ty r0 ltac:(lia)) as F0.
+      destruct (skip_field_p f d ty r0) as [s0 r1] eqn:E0. cbn [fst] in F0.
+      pose proof (proj1 (skip_p_len f) _ _ _ _ _ E0) as L1.
+      destruct s0; try congruence; [|cbn; congruence].
+      destruct (ty =? tSE)%N; [cbn; congruence|]. apply IHe. lia.
+Qed.
+
+Lemma seek_p_fuel : forall f tag req bs, (2 * length bs + 4 <= f)%nat -> seek_p f tag req bs <> SeekFuel.
+Proof.
+  induction f as [|f IH]; intros tag req bs Hf; [lia|]. cbn [seek_p].
+  destruct (read_head2 bs) as [[[[ty tg] r] two]|] eqn:E; [|destruct req; congruence].
+  apply read_head2_len in E.
+  destruct ((ty =? tSE) || (tag <? tg))%N; [destruct req; congruence|]. destruct (tg =? tag)%N; [congruence|].
+  pose proof (proj1 (skip_p_fuel f) 0%N ty r ltac:(lia)) as F0.
+  destruct (skip_field_p f 0 ty r) as [s0 r1] eqn:E0. cbn [fst] in F0.
+  pose proof (proj1 (skip_p_len f) _ _ _ _ _ E0) as L1.
+  destruct s0; try congruence. apply IH. lia.
+Qed.
+
+(* hence, with the model's own fuel [fuel_for] and three units more for the code: the translated readers compute the
+   models of Codec/Skip.v and Codec/Prim.v as they stand, for every input *)
+Theorem tr_SkipToNoCheck_total : forall F (tag : N) req ref p, ok (mk ref p 0) ->
+  (fuel_for (go_drop ref p) + 3 <= F)%nat ->
+  seek_sim (tr_SkipToNoCheck F (Z.of_N tag) req (mk ref p 0)) ref (skip_to_no_check (fuel_for (go_drop ref p)) tag req (go_drop ref p)).
+Proof.
+  intros F tag req ref p Hok HF. pose proof (seek_p_fuel (fuel_for (go_drop ref p)) tag req (go_drop ref p) ltac:(unfold fuel_for; lia)) as NF.
+  rewrite seek_p_clean by exact NF. apply tr_SkipToNoCheck_equiv; assumption.
+Qed.
+
+Theorem tr_ReadInt_total : forall F (tag : N) req ref p data, ok (mk ref p 0) ->
+  let bs := go_drop ref p in (fuel_for bs + 3 <= F)%nat ->
+  read_sim (tr_ReadInt8 F data (Z.of_N tag) req (mk ref p 0)) ref data (r_int8 (fuel_for bs) tag req bs) /\
+  read_sim (tr_ReadInt16 F data (Z.of_N tag) req (mk ref p 0)) ref data (r_int16 (fuel_for bs) tag req bs) /\
+  read_sim (tr_ReadInt32 (S F) data (Z.of_N tag) req (mk ref p 0)) ref data (r_int32 (fuel_for bs) tag req bs) /\
+  read_sim (tr_ReadInt64 F data (Z.of_N tag) req (mk ref p 0)) ref data (r_int64 (fuel_for bs) tag req bs).
+Proof.
+  intros F tag req ref p data Hok bs HF.
+  pose proof (seek_p_fuel (fuel_for bs) tag req bs ltac:(unfold fuel_for; lia)) as NF.
+  unfold r_int8, r_int16, r_int32, r_int64, r_int. rewrite !with_seek_p_clean by exact NF.
+  repeat split; [apply tr_ReadInt8_equiv|apply tr_ReadInt16_equiv|apply tr_ReadInt32_equiv|apply tr_ReadInt64_equiv]; assumption.
+Qed.
+
+Theorem tr_ReadString_total : forall F (tag : N) req ref p data, ok (mk ref p 0) ->
+  let bs := go_drop ref p in (fuel_for bs + 3 <= F)%nat ->
+  read_sim (tr_ReadString F data (Z.of_N tag) req (mk ref p 0)) ref data (r_string (fuel_for bs) tag req bs).
+Proof.
+  intros F tag req ref p data Hok bs HF.
+  pose proof (seek_p_fuel (fuel_for bs) tag req bs ltac:(unfold fuel_for; lia)) as NF.
+  unfold r_string. rewrite with_seek_p_clean by exact NF. apply tr_ReadString_equiv; assumption.
+Qed.
+
+(* instance: a struct-typed field at tag 1 is skipped, the int16 at tag 2 is read *)
+Example tr_ReadInt16_ex :
+  tr_ReadInt16 20 0 2 true (mk [26; 12; 11; 33; 255; 254; 7]%N 0 0) = Return (mk [26; 12; 11; 33; 255; 254; 7]%N 6 0, -2, false).
+Proof. vm_compute. reflexivity. Qed.
